@@ -99,6 +99,7 @@ type seq struct {
 
 	nontrivial       bool
 	pendingProbe     bool
+	installed        bool // a snapshot beyond the log was saved: known finding from here on
 	conflict         bool
 	conflictRotated  bool
 	crossed          bool
@@ -194,8 +195,52 @@ func (s *seq) emit(op, ans string) int {
 	return s.c.Emit(op, ans)
 }
 
+// classes that stay what they are even after a snapshot install
+var hardClasses = map[string]bool{"panic": true, "hardstate_changed": true, "snapshot_changed": true, "save_failed": true,
+	"reopen_failed": true, "close_failed": true, "init_failed": true, "reference_panic": true}
+
 func (s *seq) viol(line int, class, desc string) {
+	if s.installed && !hardClasses[class] {
+		// known finding: Save with a snapshot beyond the log does not replace the log
+		// (MemoryStorage.ApplySnapshot does): first index, terms and entries of the old
+		// log stay visible
+		desc = "[after a snapshot install; " + class + "] " + desc
+		class = "snapshot_install_keeps_old_entries"
+	}
 	s.c.Violation(line, class, fmt.Sprintf("seq %d: %s", s.id, desc))
+}
+
+// doInstall: what raft hands to Save after it accepted a snapshot from the leader — a snapshot
+// whose index lies beyond the log, no entries.  The reference replaces its log by the snapshot.
+func (s *seq) doInstall() {
+	idx := s.last + 1 + uint64(s.r.Intn(20))
+	t := s.curTerm + 1
+	sn := raftpb.Snapshot{Data: []byte(fmt.Sprintf("in%d", idx)), Metadata: raftpb.SnapshotMetadata{Index: idx, Term: t, ConfState: s.randConf()}}
+	hs := raftpb.HardState{Term: t, Vote: uint64(s.r.Intn(4)), Commit: idx}
+	var err error
+	p := hx.Safe(func() { err = s.rds.Save(&hs, nil, &sn) })
+	ans := "ok"
+	if p != "" {
+		ans = "err " + p
+	} else if err != nil {
+		ans = "err " + errName(err)
+	}
+	line := s.emit(fmt.Sprintf("save %d,%d,%d %s %d -", hs.Term, hs.Vote, hs.Commit, snapText(sn), s.last+1), ans)
+	if ans != "ok" {
+		s.viol(line, "save_failed", "Save: "+ans)
+	}
+	if p := hx.Safe(func() { _ = s.ms.ApplySnapshot(sn) }); p != "" {
+		s.viol(line, "reference_panic", "ApplySnapshot "+p)
+	}
+	_ = s.ms.SetHardState(hs)
+	s.installed = true
+	s.wantSnap, s.wantHS = sn, hs
+	s.terms = make([]uint64, idx+1)
+	s.terms[idx] = t
+	s.last, s.commit, s.curTerm, s.first = idx, idx, t, idx+1
+	s.c.Count("op:install-snapshot")
+	s.pendingProbe = true
+	s.probes()
 }
 
 // ---------------------------------------------------------------- reference helpers
@@ -1047,7 +1092,10 @@ func (s *seq) doMksnap() {
 	if want := s.expectMksnap(i); ans != want {
 		s.viol(line, "create_snapshot", fmt.Sprintf("CreateSnapshot(%d): store %s, expected %s (first %d last %d snap %d)", i, ans, want, s.refFirst(), s.refLast(), si))
 	}
-	if ans == "ok" {
+	if ans == "ok" && s.expectMksnap(i) != "ok" {
+		// already reported; follow the store so that one divergence is not reported twice
+		hx.Safe(func() { s.wantSnap, _ = s.rds.Snapshot() })
+	} else if ans == "ok" {
 		s.wantSnap = raftpb.Snapshot{Data: data, Metadata: raftpb.SnapshotMetadata{Index: i, Term: s.terms[i], ConfState: cs}}
 		if i > si {
 			hx.Safe(func() { _, _ = s.ms.CreateSnapshot(i, &cs, data) })
@@ -1187,6 +1235,8 @@ func runSeq(c *hx.Ctx, r *hx.Rng, id int, root string, profile int) {
 		case x < 83 && profile == 3:
 			s.sizeSave()
 			s.advanceCommit()
+		case x < 90 && profile == 4:
+			s.doInstall()
 		default:
 			s.queries(1 + s.r.Intn(3))
 			continue
@@ -1231,6 +1281,9 @@ func runSeq(c *hx.Ctx, r *hx.Rng, id int, root string, profile int) {
 	if s.conflict {
 		c.Count("seq:conflict")
 	}
+	if s.installed {
+		c.Count("seq:snapshot-install")
+	}
 	if s.crossed {
 		c.Count("seq:crossed-file-boundary")
 	}
@@ -1251,7 +1304,8 @@ func runSeq(c *hx.Ctx, r *hx.Rng, id int, root string, profile int) {
 
 // Run: c.N sequences.  Profiles: 0 small logs, boundary arguments; 1 logs that start a few
 // entries short of the 30000-slot boundary; 2 logs of two or three files; 3 payloads of several
-// MiB that cross the 32 MiB size cap.
+// MiB that cross the 32 MiB size cap; 4 small logs with snapshot installs (a snapshot beyond the
+// log handed to Save: known finding snapshot_install_keeps_old_entries).
 func Run(c *hx.Ctx) error {
 	logger.SetLogger(zap.NewNop())
 	n := c.Budget(160, 3000)
@@ -1284,6 +1338,8 @@ func Run(c *hx.Ctx) error {
 			profile = 2
 		case x < 32:
 			profile = 3
+		case x < 36:
+			profile = 4
 		}
 		if v := c.Arg("profile", ""); v != "" {
 			profile, _ = strconv.Atoi(v)
